@@ -438,3 +438,31 @@ def fresh_datetime_ord(e, name, ord_min=None, ord_max=None, with_time=False):
     else:
         us = z3.IntVal(0)
     return SymDateTime(o, us)
+
+
+# ------------------------------------------------------------------------------------------------
+# dateutil.parser.parse: not encodable.  On a symbolic string the stub forks into "some naive date-time" and
+# ValueError (both outcomes are explored; which concrete texts are dates is decided by the real dateutil on replay).
+def _dateutil_stub(timestr, *a, **kw):
+    if not models.symbolic(timestr):
+        from dateutil.parser import parse as real
+        return real(timestr, *a, **kw)
+    if not isinstance(timestr, SymStr):
+        raise TypeError('Parser must be a string or character stream, not %s' % models._tname(timestr))
+    e = E.cur()
+    log = getattr(e, 'dateutil_log', None)
+    if log is None:
+        log = e.dateutil_log = []
+    if len(timestr) == 0 or e.choose(2) == 0:
+        log.append((timestr, None))
+        raise ValueError('String does not contain a date (dateutil stub)')
+    d = fresh_datetime_ord(e, 'du%d' % len(log), 1, MAXORD, with_time=True)
+    log.append((timestr, d))
+    return d
+
+
+try:
+    from dateutil.parser import _parser as _dup
+    models.PY_MODELS[_dup.parse] = _dateutil_stub
+except ImportError:
+    pass
